@@ -219,9 +219,34 @@ def r2_5(ctx):
                 ctx.bad(k, v["where"], v["what"])
 
 
+def r2_6(ctx):
+    """the Diff that is stored is the list of records DiffTool::diff produced: Diff::new keeps every record it is given (no filter / retain / dedup .. on
+    the way into `lines`) - a record dropped there is output that appears nowhere, and has_differences no longer sees it"""
+    from .c20 import FILTERS
+    prog = ctx.prog
+    f = prog.fn("Diff::new")
+    o = Origins(f)
+    aggs = [d for d in f.defs.get(0, []) if d[2] == "assign" and d[3]["k"] == "agg" and d[3].get("agg") == "adt"]
+    if len(aggs) != 1:
+        raise AnchorError("Diff::new: expected one struct literal, found %d" % len(aggs))
+    rv = aggs[0][3]
+    if "lines" not in rv["fields"]:
+        raise AnchorError("Diff::new: no `lines` field")
+    tree = o.operand(rv["ops"][rv["fields"].index("lines")])
+    drop = sorted({method_name(c) for c in tree.call_names() if method_name(c) in FILTERS or method_name(c).split("::")[-1] in ("retain", "filter", "filter_map", "dedup", "truncate", "drain", "take", "skip", "take_while", "skip_while")})
+    # mutations of the argument before it is stored
+    from .c16 import mut_calls
+    muts = sorted({mname(t) for l in range(1, f.arg_count + 1) for _, t in mut_calls(f, l) if (mname(t) or "").split("::")[-1] in ("retain", "dedup", "truncate", "drain", "remove", "pop", "clear", "retain_mut", "dedup_by", "dedup_by_key", "swap_remove")})
+    from_arg = any(n.kind == "arg" and n.a == 1 for n in tree.walk())
+    ctx.check(from_arg and not drop and not muts, "records-kept", f.where(), "Diff::new stores the records it is given, all of them",
+              "Diff::new passes the records through %s before storing them: a dropped record (e.g. a hunk of blank unexpected lines) is output that appears nowhere "
+              "in the result - has_differences does not see it and the test passes" % (drop + muts or "something other than its argument"))
+
+
 def run(ctx):
     ctx.run_rule("R2.5", "accounting: a cursor moves only past lines / expectations that were recorded (or optional expectations); function exit reports the rest - "
                  "every line and every non-optional expectation is mentioned [E-STATE, obligations shared with C01]", r2_5, floor=15)
     for rule in ("R2.1", "R2.2", "R2.3"):
         ctx.run_rule(rule, TEXT[rule], _mk(rule), floor={"R2.1": 9, "R2.2": 1, "R2.3": 3}[rule])
     ctx.run_rule("R2.4", "split_at_newline: pushed slices start at `start`, end at index+1 on the newline edge, start := index+1, rest pushed iff start < len (partition, terminators kept) [E-STATE shape]", r2_4, floor=7)
+    ctx.run_rule("R2.6", "Diff::new keeps every record it is given (no filter / retain / dedup on the way into `lines`) [E-FLOW]", r2_6, floor=1)
